@@ -77,6 +77,10 @@ func (c06) Run(c *fw.Case) {
 			combos = append(combos, []any{m1, m2})
 		}
 	}
+	if len(combos) > 48 { // size-stressed topologies (up to 70 resources): a seeded sample of the marker combinations
+		r.Shuffle(len(combos), func(i, j int) { combos[i], combos[j] = combos[j], combos[i] })
+		combos = combos[:48]
+	}
 	for _, combo := range combos {
 		inst := u.Wrap(combo...)
 		valid, decided := mc.compare(c, m, rs, inst, &ts, fmt.Sprintf("$dynamicRef %q", u.Final))
